@@ -103,6 +103,16 @@ SUITES = {
         trace=dict(module="Trace_Sectors", cfg_in="Trace_Sectors.cfg.in", timeout=3600),
         props=["C02", "C03", "C04", "C05", "C14", "C01"],
     ),
+    "evmcalls": dict(
+        mc=[dict(module="MC_EVMCalls", cfg=tiered("MC_EVMCalls.cfg", "MC_EVMCalls_thorough.cfg"),
+                 timeout=tiered(900, 5400), workers=tiered(4, 8))],
+        sim=dict(module="MC_EVMCalls", cfg="Sim_EVMCalls.cfg", num=tiered(12, 300), depth=10),
+        tour_cap=tiered(1500, 10 ** 9),
+        driver="evmcalls",
+        driver_args=lambda tier: ["--random", 250 if tier == "quick" else 6000, "--len", 10],
+        trace=dict(module="Trace_EVMCalls", cfg_in="Trace_EVMCalls.cfg.in"),
+        props=["C19"],
+    ),
 }
 
 # property -> suites whose traces carry formulas tagged with that property
@@ -122,12 +132,13 @@ PROPS = {
     "C20": dict(suites=["initd"], title="Actor identities are unique, stable and derived as specified"),
     "C17": dict(suites=["evm17"], title="EVM instructions compute what the Ethereum specification says"),
     "C18": dict(suites=["evm18"], title="EVM execution is total, bounded and respects read-only mode"),
+    "C19": dict(suites=["evmcalls"], title="EVM contract state stays coherent across nested, re-entrant and reverted calls"),
 }
 
 NOT_BUILT = "check not built yet in this round (work in progress; see DESIGN.md build order)"
 NOT_APPLICABLE = {p: NOT_BUILT for p in
                   ["C10", "C11",
-                   "C14", "C15", "C19"]}
+                   "C14", "C15"]}
 
 _MKT = ("Bounded exhaustive TLC model checking of spec/Market.tla with the REAL protocol constants (180-day minimum duration, 30-day cron interval; time jumps only between deal boundaries and scheduled cron epochs, so the state space is small and every behaviour is replayable 1:1): every interleaving of deposits, withdrawals, batch publication with invalid entries, both activation paths, settlement, sector termination and the per-epoch cron over <= 2 deals; formulas as invariants over state + event-derived ghosts and as action properties. Conformance: a transition tour of the model, TLC simulation behaviours and guided random schedules run on the real market actor with real miner actors as providers; every recorded step validated by TLC. ")
 _SEC = ("System-level conformance: guided random schedules of USER messages only (pre-commit, prove-commit, Window PoSt with skipped sets, fault / recovery declarations, terminations, extensions, compaction, withdrawals, block rewards, fault-plan injections) plus the per-epoch cron are run on the real miner, power, reward, cron and market actors under a scaled-down policy (4 deadlines x 6 epochs, 2 KiB sectors, partition size 2), miners created through the real power actor; after every message and tick the full projected state (every partition bitfield, memo, expiration queue, claim, cron queue, balance) is validated by TLC against the Layer-P formulas of spec/SectorsP.tla written from the protocol. ")
@@ -147,6 +158,7 @@ LEVEL_TEXT = {
     "C12": "Bounded exhaustive TLC model checking of spec/Multisig.tla (every interleaving of propose/approve/cancel by signers and outsiders with admin transactions and re-entrant self-calls executed inside the approving step, within small constants) + conformance: TLC-exported behaviours and random schedules run on the real multisig actor (created through init, inner sends really executed) and each recorded step is validated by TLC against the C12 formulas and the spec's transition function.",
     "C16": "Bounded exhaustive TLC model checking of spec/Paych.tla (all voucher/settle/collect interleavings within small constants, C16 formulas as invariants and action properties) + conformance: TLC-exported behaviours and random schedules are executed on the real paych actor and every recorded step is validated by TLC against the same formulas and the spec's transition relation.",
     "C20": "Bounded exhaustive TLC model checking of spec/Init.tla (init.Exec/Exec4 creator-code matrix, EAM CreateExternal, CREATE/CREATE2 issued by contracts running nested programs with reverting frames, failing constructors, self-destruct and resurrection, auto-created accounts and placeholders, deployments landing on placeholders; the C20 formulas as action properties over (pre-state, call + observed creations, post-state), Keccak/RLP as an injective uninterpreted function) + conformance: a transition tour of the model, TLC simulation behaviours and guided random schedules run on the real init, EAM, EVM, multisig, paych, power/miner actors (contracts are real EVM bytecode interpreting the programs); every recorded step validated by TLC; the literal CREATE/CREATE2 address bytes are re-computed by the harness with its own RLP + Keccak-256 (formula AddrFormula).",
+    "C19": "Bounded exhaustive TLC model checking of spec/EVMCalls.tla, the ideal semantics of a system of script-running contracts (per-contract storage, transient storage per message, balances, tombstones, journalled revert, DELEGATECALL / STATICCALL contexts, CREATE/CREATE2 incl. resurrection, SELFDESTRUCT): every script of a generated alphabet (write/call/read patterns over all call kinds and targets, nesting 3 with re-entrancy, reverting / aborting / self-destructing callees) from two initial worlds, with the semantics' meta-properties (a reverted or aborted sub-call leaves the world unchanged, static calls have no effect, transient storage is empty at message start, delegate code runs on the caller's storage, destroyed contracts are empty) as invariants + conformance: the transition tour, TLC simulation behaviours and guided random scripts are compiled to call data for a script-interpreter contract (real EVM bytecode deployed through the real EAM) and run on the real EVM actor; every value read inside the call tree, the outcome, every contract's storage (GetStorageAt), code (GetBytecode), balances, tombstones and effective events are validated by TLC against the ideal semantics (formulas ReadsCoherent, TransientScope, DelegateContext, StorageCoherent, BalancesCoherent, LogsCoherent, TombstoneCoherent, RevertLeavesNoTrace, StaticNoEffect, DestroyedIsEmpty, TombstoneLifecycle).",
 }
 LEVEL_NOTE = {
     "default": "Trusted: verif_vm (native Runtime implementation derived from test_vm), the driver's abstract-call -> message mapping and state projection, TLC. Bounded: model constants in spec/MC_*.cfg; real traces cover only explored schedules.",
